@@ -192,6 +192,7 @@ class Reservoir(Filter[Iterable[Any], Sequence[Any]]):
 
                 try:
                     for r1,r2,r3 in batched_randoms_forever(20):
+                        if r1 == 0 or r2 == 0: break #the skip is infinite (r1**x and log(r2) are only defined on (0,1))
                         W = W*r1**x
                         S = floor(log(r2,1-W))
                         reservoir[int(r3*count)] = next(islice(items,S,S+1))
